@@ -76,6 +76,16 @@ func SignHashEnvelope(rand io.Reader, signer Signer, headers Headers, payload Ha
 	if err := validateHashEnvelopeHeaders(&headers); err != nil {
 		return nil, err
 	}
+	if len(headers.RawUnprotected) > 0 {
+		// RawUnprotected takes precedence over Unprotected when encoding
+		raw := Headers{Protected: headers.Protected}
+		if err := raw.Unprotected.UnmarshalCBOR(headers.RawUnprotected); err != nil {
+			return nil, err
+		}
+		if err := validateHashEnvelopeHeaders(&raw); err != nil {
+			return nil, err
+		}
+	}
 
 	return Sign1(rand, signer, headers, payload.HashValue, nil)
 }
